@@ -278,7 +278,10 @@ external('numpy.asarray')(np_array)
 def np_zeros(eng, args, kwargs, st, node):
     n = z3.simplify(eng.num(args[0], st, node)[0])
     if not z3.is_int_value(n):
-        raise OutOfSubset('np.zeros(symbolic)')
+        # 1-D array of symbolic length: a list of reals, all zero
+        eng.safety(st, n >= 0, 'zeros-count', node)
+        yield new_list(st, Ty('list', [REAL]), z3.K(z3.IntSort(), z3.RealVal(0)), n), st
+        return
     yield mkvec([mk_real(0)] * n.as_long()), st
 
 
@@ -403,3 +406,11 @@ def np_linspace(eng, args, kwargs, st, node):
     lo, hi = z3.If(a <= b, a, b), z3.If(a <= b, b, a)
     st.assume(q_index(c.n, lambda i: z3.And(lo <= z3.Select(c.arr, i), z3.Select(c.arr, i) <= hi), name='lb'))
     yield r, st
+
+
+@external('cmath.rect')
+def c_rect(eng, args, kwargs, st, node):
+    """A10: rect(r, phi) = r*(cos phi + i sin phi); modelled as the record (real, imag)"""
+    r, phi = real_of(eng, args[0], st, node), real_of(eng, args[1], st, node)
+    c, s_ = _trig_pair(eng, st, phi)
+    yield TupV([SV(REAL, r * c), SV(REAL, r * s_)], 'Complex'), st
